@@ -224,6 +224,55 @@ def check_numeric_and_early(run, tm, ncases):
                               dict(container=label, values=[float(v) for v in np.asarray(seq, dtype=float)], got=[str(v) for v in d64], want=[str(v) for v in want64]))
 
 
+def check_edges(run, tm):
+    """Deterministic edge cases, in every run: the epoch itself in every representation (falsy numbers!), numpy scalar
+    numbers, and sequences of datetimes of mixed awareness in every order."""
+    import pandas as pd
+    import xarray
+    epoch_reps = [("int 0", 0), ("float 0.0", 0.0), ("np.int32(0)", np.int32(0)), ("np.int64(0)", np.int64(0)),
+                  ("np.float64(0.0)", np.float64(0.0)), ("datetime64(0,s)", np.datetime64(0, "s")),
+                  ("datetime64(0,ns)", np.datetime64(0, "ns")), ("aware", EPOCH), ("naive", EPOCH.replace(tzinfo=None)),
+                  ("iso Z", "1970-01-01T00:00:00Z"), ("iso offset", "1970-01-01T05:30:00+05:30")]
+    for label, rep in epoch_reps:
+        run.case("epoch_zero", key=label)
+        got = tm.to_datetime_utc(rep)
+        if got != EPOCH or got is None or got.utcoffset() != timedelta(0):
+            run.violation("the epoch instant is not converted to 1970-01-01T00:00:00 UTC", dict(representation=label, got=repr(got)))
+        s = tm.datetime_to_iso_time_string(rep)
+        if s is None or tm.to_datetime_utc(s) != EPOCH:
+            run.violation("formatting the epoch instant as ISO and parsing again does not return it", dict(representation=label, got=repr(s)))
+        d64 = tm.to_datetime64(rep)
+        if d64 is None or tm.to_datetime_utc(d64) != EPOCH:
+            run.violation("the epoch instant does not survive the datetime64 round trip", dict(representation=label, got=repr(d64)))
+    for label, rep, secs in (("np.int32", np.int32(1668000042), 1668000042), ("np.int64", np.int64(1668000042), 1668000042),
+                             ("np.float64", np.float64(1668000042.5), 1668000042.5)):      # (float32 cannot hold epoch seconds: not a representation of an instant)
+        run.case("numpy_scalar_epoch", key=label)
+        want = EPOCH + timedelta(seconds=float(secs))
+        got = tm.to_datetime_utc(rep)
+        if got != want:
+            run.violation("a numpy scalar of epoch seconds converts to a different instant", dict(representation=label, got=got.isoformat(), want=want.isoformat()))
+    # mixed awareness, every order
+    base = datetime(2023, 3, 26, 1, 30, 0)
+    items = [("naive", base, base.replace(tzinfo=timezone.utc)),
+             ("aware +05:30", base.replace(tzinfo=timezone(timedelta(minutes=330))), base.replace(tzinfo=timezone.utc) - timedelta(minutes=330)),
+             ("aware -03:00", base.replace(tzinfo=timezone(timedelta(hours=-3))), base.replace(tzinfo=timezone.utc) + timedelta(hours=3)),
+             ("aware utc", base.replace(tzinfo=timezone.utc), base.replace(tzinfo=timezone.utc))]
+    import itertools
+    for perm in itertools.permutations(range(4)):
+        seq = [items[i][1] for i in perm]
+        want = [items[i][2] for i in perm]
+        for wrap, val in (("list", list(seq)), ("tuple", tuple(seq)), ("object ndarray", np.array(seq, dtype=object))):
+            run.case("mixed_awareness", key=(perm, wrap))
+            got = tm.to_datetime_utc(val)
+            if list(got) != want or any(g.utcoffset() != timedelta(0) for g in got):
+                run.violation("a sequence of datetimes of mixed awareness is not converted element by element",
+                              dict(container=wrap, order=[items[i][0] for i in perm], got=[g.isoformat() for g in got], want=[w.isoformat() for w in want]))
+            d64 = np.asarray(tm.to_datetime64(val))
+            want64 = np.array([np.datetime64(int((w - EPOCH).total_seconds()), "s") for w in want]).astype("datetime64[ns]")
+            if not np.array_equal(d64, want64):
+                run.violation("to_datetime64 of a sequence of datetimes of mixed awareness denotes other instants", dict(container=wrap, order=[items[i][0] for i in perm]))
+
+
 def check_packed(run, drv, tm, thorough):
     rng = run.rng
     # times
@@ -319,6 +368,8 @@ def main(prop, tier, seed):
                 check_conversions(run, drv, tm, 6000 if thorough else 500)
             with common.guard(run, "numeric arrays and instants before 1970"):
                 check_numeric_and_early(run, tm, 400 if thorough else 60)
+            with common.guard(run, "edge cases"):
+                check_edges(run, tm)
             with common.guard(run, "packed integers"):
                 check_packed(run, drv, tm, thorough)
         finally:
